@@ -157,7 +157,7 @@ pub struct RefMap {
 
 pub enum PreExtra {
     Copy { src: Element, src_dump: String, src_version: AutosarVersion, dest_version: AutosarVersion, expected: Option<String> },
-    Sort { root: Element, canon: String },
+    Sort { root: Element, canon: String, conformed: bool },
     RemoveFile { model: usize, file: ArxmlFile, only_f: Vec<Element>, others_text: Vec<(ArxmlFile, String)>, removed_label: String },
     Duplicate { texts: Vec<(String, String)> },
 }
